@@ -20,6 +20,7 @@
 #include <tuple>
 #include <unordered_set>
 #include <vector>
+#include <deque>
 
 #include "../port/bridge.h"
 #include "../port/vport.h"
@@ -233,6 +234,9 @@ static inline std::string wellformed(const Bytes &f, size_t mtu, const Mac &own,
     if (h.ver != 1) return fmt("version %u", h.ver);
     if (h.res != 0) return fmt("reserved byte %u", h.res);
     if (h.rsrc != own) return "real source is not the interface's own address";
+    // the responder speaks the two discovery services only; Probe, Train, ACK and QueryResp exist in topology discovery alone
+    if (h.tos > 1) return fmt("type of service %u is not a discovery service", h.tos);
+    if (h.tos != 0 && (h.op == OP_TRAIN || h.op == OP_PROBE || h.op == OP_ACK || h.op == OP_QUERYRESP)) return fmt("opcode %u sent with type of service %u: it exists in topology discovery (0) only", h.op, h.tos);
     switch (h.op) {
         case OP_HELLO: { Hello x; return dec_hello(f, x); }
         case OP_TRAIN: case OP_PROBE: case OP_ACK:
@@ -512,21 +516,51 @@ static inline Args parse_args(int argc, char **argv) {
 
 // the case being executed, dumped by the sanitizer death callback
 extern "C" void __sanitizer_set_death_callback(void (*)(void)) __attribute__((weak));
+// A saved reproduction normally is one self-contained case. When a failure needs what EARLIER cases left behind in the process
+// (state the code under test keeps outside its objects: a function-local static, a cache), the reproduction is the short run of
+// cases that ends with the failing one; they are stored in one file, separated by CASE_SEP, and replayed in order in one process.
+static const char *const CASE_SEP = "#==== next case (same process) ====";
+static inline std::vector<std::string> split_cases(const std::string &text) {
+    std::vector<std::string> out(1);
+    std::istringstream in(text);
+    std::string line;
+    while (std::getline(in, line)) {
+        if (line == CASE_SEP) { out.emplace_back(); continue; }
+        out.back() += line; out.back() += "\n";
+    }
+    return out;
+}
 struct Current {
     static std::string &path() { static std::string p; return p; }
     static const Case *&cur() { static const Case *c = nullptr; return c; }
     static std::string &note() { static std::string n; return n; }
+    static std::deque<Case> &prev() { static std::deque<Case> d; return d; }   // the cases evaluated in this process just before the current one
+    static constexpr size_t PREV_MAX = 3;
+    static std::string prev_text() {
+        std::string t;
+        for (auto &c : prev()) { t += c.to_text(); t += CASE_SEP; t += "\n"; }
+        return t;
+    }
     static void on_death() {
         if (cur() && !path().empty()) {
             std::string t = "# sanitizer/crash while executing this case\n" + cur()->to_text();
             FILE *f = fopen(path().c_str(), "w");
             if (f) { fwrite(t.data(), 1, t.size(), f); fclose(f); }
+            if (!prev().empty()) {   // in case it only reproduces after its predecessors
+                std::string h = "# sanitizer/crash while executing the last of these cases, run one after the other in one process\n" + prev_text() + cur()->to_text();
+                f = fopen((path() + ".hist").c_str(), "w");
+                if (f) { fwrite(h.data(), 1, h.size(), f); fclose(f); }
+            }
             fprintf(stderr, "FAIL-CRASH case=%s\n", path().c_str());
         }
     }
     static void install(const std::string &p) { path() = p; if (__sanitizer_set_death_callback) __sanitizer_set_death_callback(on_death); }
 };
 struct CurrentScope {
-    CurrentScope(const Case &c) { Current::cur() = &c; }
-    ~CurrentScope() { Current::cur() = nullptr; }
+    bool keep;
+    CurrentScope(const Case &c, bool remember = false) : keep(remember) { Current::cur() = &c; }
+    ~CurrentScope() {
+        if (keep && Current::cur()) { Current::prev().push_back(*Current::cur()); if (Current::prev().size() > Current::PREV_MAX) Current::prev().pop_front(); }
+        Current::cur() = nullptr;
+    }
 };
